@@ -50,6 +50,7 @@ fn main() {
         "explore" => leg_explore(&tier, seed, budget),
         "interleave" => tcss_conform::interleave::leg_interleave(tier == "thorough"),
         "http" => tcss_conform::http::leg_http(tier == "thorough", seed),
+        "sqlconf" => tcss_conform::sqlconf::leg_sqlconf(tier == "thorough"),
         "faults" => tcss_conform::faults::leg_faults(tier == "thorough"),
         _ => json!({"error": format!("unknown leg {leg}")}),
     };
